@@ -39,8 +39,13 @@ func (s *Store) snapshotRevert(revertTo Snapshot) error {
 		footer.PrevFooterOffset = s.footer.filePos
 	}
 
-	err = s.persistFooter(revertToFooter.SegmentLocs[0].mref.fref.file, footer,
-		persistOptions)
+	mref := revertToFooter.mmapRefAny()
+	if mref == nil || mref.fref == nil || mref.fref.file == nil {
+		footer.DecRef()
+		return fmt.Errorf("revert footer has no persisted segments")
+	}
+
+	err = s.persistFooter(mref.fref.file, footer, persistOptions)
 	if err != nil {
 		footer.DecRef()
 		return err
@@ -58,13 +63,13 @@ func (s *Store) snapshotRevert(revertTo Snapshot) error {
 
 func (s *Store) revertToSnapshot(revertToFooter *Footer, options StorePersistOptions) (
 	rv *Footer, err error) {
-	if len(revertToFooter.SegmentLocs) <= 0 {
-		return nil, fmt.Errorf("revert footer slocs <= 0")
-	}
-
-	mref := revertToFooter.SegmentLocs[0].mref
-	if mref == nil || mref.fref == nil || mref.fref.file == nil {
-		return nil, fmt.Errorf("revert footer parts nil")
+	// A collection (top-level or child) without any persisted segments
+	// is fine, as long as its segments, if any, are loaded.
+	for i := range revertToFooter.SegmentLocs {
+		mref := revertToFooter.SegmentLocs[i].mref
+		if mref == nil || mref.fref == nil || mref.fref.file == nil {
+			return nil, fmt.Errorf("revert footer parts nil")
+		}
 	}
 
 	slocs := append(SegmentLocs{}, revertToFooter.SegmentLocs...)
